@@ -3,7 +3,7 @@
    Model: Model/TreeHash.v (tree_hash_cnt, the in-place tree_hash, tx_root, hashable_blob, block_id).
    Spec: Spec/TreeHash.v (recursive definition; PoW blob; id) with the textbook LEB128 of Spec/Leb128.v.
    The tree theorems hold for EVERY two-to-one hash `hc`, the block theorems for EVERY `H` (no property of Keccak is used). *)
-From MRS Require Import Proofs.TreeHashProofs.
+From MRS Require Import Proofs.TreeHashProofs Proofs.BlockIdProofs.
 From Coq Require Import String.
 Open Scope string_scope.
 Open Scope N_scope.
@@ -105,6 +105,28 @@ Example C06_ex_cnt : tree_hash_cnt 3 = Ok 2 /\ tree_hash_cnt 4 = Ok 2 /\ tree_ha
 Proof. repeat split; vm_compute; reflexivity. Qed.
 (* (mainnet block 202612 with its 513 hashes is evaluated inside Coq in Proofs/TreeHashKAT.v — part of the full build, not imported
    here because re-checking ~1500 Keccak permutations with coqchk takes longer than the whole thorough tier) *)
+
+(* every block the parser accepts (from at most 4 GiB of bytes): root, PoW blob and id are total and are the CryptoNote
+   definition over the miner-transaction id of C05 and the listed hashes; no assert / unwrap is reachable *)
+Theorem C06_parsed_block : forall sz s b r,
+  dec_block sz s = (Ok b, r) -> lenN s < 2 ^ 32 ->
+  let mh := tx_hash keccak256 (miner_tx b) in
+  let hdr := enc_header (blk_header b) in
+  block_tx_root keccak256 b = Ok (root_spec keccak256 (mh :: tx_hashes b)) /\
+  block_hashable keccak256 b = Ok (blob_spec keccak256 leb128 hdr (mh :: tx_hashes b)) /\
+  block_id_of keccak256 b =
+    Ok (id_spec keccak256 leb128 correct_block_id_202612 existing_block_id_202612 hdr (mh :: tx_hashes b)).
+Proof. exact parsed_block_total. Qed.
+
+Check C06_parsed_block : forall sz s b r,
+  dec_block sz s = (Ok b, r) -> lenN s < 2 ^ 32 ->
+  let mh := tx_hash keccak256 (miner_tx b) in
+  let hdr := enc_header (blk_header b) in
+  block_tx_root keccak256 b = Ok (root_spec keccak256 (mh :: tx_hashes b)) /\
+  block_hashable keccak256 b = Ok (blob_spec keccak256 leb128 hdr (mh :: tx_hashes b)) /\
+  block_id_of keccak256 b =
+    Ok (id_spec keccak256 leb128 correct_block_id_202612 existing_block_id_202612 hdr (mh :: tx_hashes b)).
+Print Assumptions C06_parsed_block.
 
 Check C06_cnt : forall n, 3 <= n -> n <= 2 ^ 28 ->
   tree_hash_cnt n = Ok (pow2_below n) /\ pow2_below n < n /\ n <= 2 * pow2_below n.
